@@ -1488,7 +1488,8 @@ func (cpu *CPU) op_iny() {
 // XXX - improve that!
 func (cpu *CPU) op_jmp() {
 	switch cpu.StepInfo.Mode {
-	case m_Absolute:
+	case m_Absolute, m_Absolute_X_Indirect:
+		// for (abs,X) Step has already fetched the target from K:(abs+X), wrapping inside the program bank
 		cpu.PC = cpu.StepInfo.Addr
 	case m_Absolute_Indirect:
 		cpu.PC = cpu.Bus.nRead16_wrap(0x00, cpu.StepInfo.Addr)
@@ -1519,6 +1520,9 @@ func (cpu *CPU) op_jsr() {
 	switch cpu.StepInfo.Mode {
 	case m_Absolute:
 		cpu.PC = cpu.StepInfo.Addr
+	case m_Absolute_X_Indirect:
+		// the target is fetched from K:(abs+X) after the return address has been pushed, wrapping inside the program bank
+		cpu.PC = cpu.Bus.nRead16_wrap(cpu.RK, uint16(cpu.StepInfo.EA))
 	default:
 		cpu.PC = cpu.cmdRead16()
 	}
